@@ -63,17 +63,19 @@ theorem assign_rel (cfg : ECfg α β) (x o : Eith α β) (y : Sum α β) (L : Le
   | true =>
     obtain ⟨a, ha, hy⟩ := erel_L h ht
     subst hy
-    unfold Eith.assign
-    split
-    · simp [ERel, Eith.get, ht, ha, Eith.assignLeft]
-    · simp [ERel, Eith.get, ht, ha, Eith.assignLeft]
+    cases hx : x.tagL <;>
+      simp [Eith.assign, Eith.assignValueL, ERel, Eith.get, ht, hx, ha, Eith.assignLeft, Eith.ctorLeft]
   | false =>
     obtain ⟨b, hb, hy⟩ := erel_R h ht
     subst hy
-    unfold Eith.assign
-    split
-    · simp [ERel, Eith.get, ht, hb]
-    · simp [ERel, Eith.get, ht, hb]
+    cases hx : x.tagL <;>
+      simp [Eith.assign, Eith.assignValueR, Eith.destroyActive, ERel, Eith.get, ht, hx, hb]
+
+theorem setL_rel (cfg : ECfg α β) (x : Eith α β) (a : α) (L : Ledger) : ERel (Eith.setL cfg x a L).1 (.inl a) := by
+  cases hx : x.tagL <;> simp [Eith.setL, Eith.assignValueL, ERel, Eith.get, hx, Eith.assignLeft, Eith.ctorLeft]
+
+theorem setR_rel (cfg : ECfg α β) (x : Eith α β) (b : β) (L : Ledger) : ERel (Eith.setR cfg x b L).1 (.inr b) := by
+  cases hx : x.tagL <;> simp [Eith.setR, Eith.assignValueR, Eith.destroyActive, ERel, Eith.get, hx]
 
 theorem estep_rel (cfg : ECfg α β) (hu : cfg.UnitRight) {w : EWorld α β} {v : Nat → Option (Sum α β)} (h : EWRel w v)
     (op : EOp α β) : EWRel (estep cfg w op) (sstep cfg.isMaybe cfg.zeroL cfg.zeroR v op) := by
@@ -117,19 +119,28 @@ theorem estep_rel (cfg : ECfg α β) (hu : cfg.UnitRight) {w : EWorld α β} {v 
     · exact h
     · cases hws : w.objs s <;> cases hvs : v s <;> simp only [hws, hvs, ORel] at hs ⊢
       · exact h
-      · exact ewrel_put h d (assign_rel cfg _ _ _ _ hs) _
+      · by_cases hds : d = s
+        · subst hds
+          simp only [if_true]
+          rw [hwd] at hws; cases hws
+          intro j
+          by_cases hj : j = d
+          · subst hj; simp [hwd, ORel]; exact hs
+          · simp [hj]; exact h j
+        · simp only [hds, if_false]
+          exact ewrel_put h d (assign_rel cfg _ _ _ _ hs) _
   | setL s a =>
     have hs := h s
     simp only [estep, sstep]
     cases hw : w.objs s <;> cases hv : v s <;> simp only [hw, hv, ORel] at hs ⊢
     · exact h
-    · apply ewrel_put h; simp [ERel, Eith.get, Eith.setL, Eith.assignLeft]
+    · exact ewrel_put h s (setL_rel cfg _ a _) _
   | setR s b =>
     have hs := h s
     simp only [estep, sstep]
     cases hw : w.objs s <;> cases hv : v s <;> simp only [hw, hv, ORel] at hs ⊢
     · exact h
-    · apply ewrel_put h; simp [ERel, Eith.get, Eith.setR]
+    · exact ewrel_put h s (setR_rel cfg _ b _) _
   | writeL s a =>
     have hs := h s
     simp only [estep, sstep]
@@ -172,20 +183,13 @@ theorem estep_trivial_led (cfg : ECfg α β) (hnt : cfg.nt = false) (w : EWorld 
     (estep cfg w op).led = w.led := by
   cases op <;> simp only [estep] <;> (repeat' split) <;>
     simp [EWorld.put, Eith.mkDflt, Eith.mkL, Eith.mkR, Eith.mkCopy, Eith.assign, Eith.setL, Eith.setR, Eith.ctorLeft,
-      Eith.assignLeft, hnt] <;> (repeat' split) <;> simp_all
+      Eith.assignLeft, Eith.assignValueL, Eith.assignValueR, Eith.destroyActive, Eith.destroy, hnt] <;> (repeat' split) <;> simp_all
 
 theorem erun_trivial_led (cfg : ECfg α β) (hnt : cfg.nt = false) (w : EWorld α β) (h : List (EOp α β)) :
     (erun cfg w h).led = w.led := by
   induction h generalizing w with
   | nil => rfl
   | cons op h ih => simp only [erun]; rw [ih, estep_trivial_led cfg hnt]
-
-/-- no destructor of the contained type is ever run, no block is allocated -/
-theorem estep_dtors (cfg : ECfg α β) (w : EWorld α β) (op : EOp α β) :
-    (estep cfg w op).led.dtors = w.led.dtors ∧ (estep cfg w op).led.allocs = w.led.allocs := by
-  cases op <;> simp only [estep] <;> (repeat' split) <;>
-    simp [EWorld.put, Eith.mkDflt, Eith.mkL, Eith.mkR, Eith.mkCopy, Eith.assign, Eith.setL, Eith.setR, Eith.ctorLeft,
-      Eith.assignLeft, Ledger.flag, Ledger.ctor] <;> (repeat' split) <;> simp_all [Ledger.flag, Ledger.ctor]
 
 /-- histories that never put a left value into any object -/
 def neverLeft (cfg : ECfg α β) : EOp α β → Prop
@@ -241,15 +245,20 @@ theorem estep_neverLeft (cfg : ECfg α β) {w : EWorld α β} (h : EInvR w) (op 
       | some o =>
         have ho := h.1 s o hs
         have hx := h.1 d x hd
-        refine einvr_put h d _ _ ?_ ?_
-        · unfold Eith.assign; (repeat' split) <;> simp_all
-        · unfold Eith.assign; (repeat' split) <;> simp_all <;> exact h.2
+        by_cases hds : d = s
+        · simp only [hds, if_true]; exact h
+        · simp only [hds, if_false]
+          refine einvr_put h d _ _ ?_ ?_
+          · simp [Eith.assign, Eith.assignValueR, ho, hx]
+          · simp only [Eith.assign, Eith.assignValueR, ho, hx, Bool.false_eq_true, if_false]; exact h.2
   | setL s a => simp [neverLeft] at hok
   | setR s b =>
     simp only [estep]
     cases hw : w.objs s with
     | none => exact h
-    | some x => exact einvr_put h s _ _ (by simp [Eith.setR]) (by simpa [Eith.setR] using h.2)
+    | some x =>
+      have hx := h.1 s x hw
+      exact einvr_put h s _ _ (by simp [Eith.setR, Eith.assignValueR, hx]) (by simpa [Eith.setR, Eith.assignValueR, hx] using h.2)
   | writeL s a => simp [neverLeft] at hok
   | read s => exact h
   | destroy s =>
@@ -257,7 +266,8 @@ theorem estep_neverLeft (cfg : ECfg α β) {w : EWorld α β} (h : EInvR w) (op 
     cases hw : w.objs s with
     | none => exact h
     | some x =>
-      refine ⟨?_, h.2⟩
+      have hx := h.1 s x hw
+      refine ⟨?_, by simpa [EWorld.put, Eith.destroy, Eith.destroyActive, hx] using h.2⟩
       intro j y hy
       simp only [EWorld.put] at hy
       by_cases hj : j = s
